@@ -413,3 +413,27 @@ def run_to_file(cmd, path, timeout=3600, env=None, cwd=None):
 def parallel(fn, items, jobs=NCPU):
     with cf.ThreadPoolExecutor(max_workers=jobs) as ex:
         return list(ex.map(fn, items))
+
+
+# ---------------------------------------------------------------------------
+# Python bindings (PyImath), built from the current working tree with the repo's own CMake
+
+def pyimath_build():
+    """Configure+build the imath Python module from REPO (incremental: ninja decides what is stale).
+    Returns dict(env=..., python=..., dir=...)."""
+    if "py" in _cfg_done:
+        return _cfg_done["py"]
+    d = os.path.join(BUILD, "py-" + hashlib.sha256(REPO.encode()).hexdigest()[:10])
+    py = "/usr/bin/python3.11"
+    if not os.path.exists(os.path.join(d, "build.ninja")):
+        os.makedirs(d, exist_ok=True)
+        sh(["cmake", "-G", "Ninja", "-S", REPO, "-B", d, "-DPYTHON=ON", "-DBUILD_TESTING=OFF", "-DCMAKE_BUILD_TYPE=Release",
+            "-DPython3_EXECUTABLE=" + py, "-DPython_EXECUTABLE=" + py], timeout=1200)
+    r = sh(["cmake", "--build", d, "-j", str(NCPU)], timeout=3600, check=False)
+    if r.returncode != 0:
+        raise Infra("PyImath build failed:\n" + r.stdout[-6000:])
+    env = {"LD_LIBRARY_PATH": "%s/src/python/PyImath:%s/src/Imath:%s" % (d, d, os.environ.get("LD_LIBRARY_PATH", "")),
+           "PYTHONPATH": "%s/python3_11:%s" % (d, os.path.join(HARNESS, "py")),
+           "PYTHONHASHSEED": "0"}
+    _cfg_done["py"] = {"env": env, "python": py, "dir": d}
+    return _cfg_done["py"]
